@@ -853,6 +853,14 @@ func (e *Env) call(x *ECall) *CV {
 			r = a.V.S
 		}
 		return cvBool(Ge(r, e.oldNext))
+	case "unique":
+		// unique(result): allocated during the call and referenced by nothing else
+		a := arg(0)
+		if a.K != CVal || e.oldNext == nil || a.V.K != VSlice {
+			efail("unique() needs a slice result in a postcondition")
+		}
+		a.V.Unique = true
+		return cvBool(Ge(a.V.Ref, e.oldNext))
 	case "freshornil":
 		a := arg(0)
 		r := a.V.Ref
@@ -905,6 +913,13 @@ func (e *Env) call(x *ECall) *CV {
 			var ts []*Term
 			for i, p := range f.Params {
 				ts = append(ts, e.coerceTo(arg(i), p.Type)...)
+			}
+			if f.Macro && f.BodyTerm != nil {
+				m := map[*Term]*Term{}
+				for i, pv := range f.ParamVars {
+					m[pv] = ts[i]
+				}
+				return e.scalarCV(Subst(f.BodyTerm, m), f.RetSigned)
 			}
 			r := App(f.SMTName, f.RetSort, ts...)
 			return e.scalarCV(r, f.RetSigned)
